@@ -59,6 +59,8 @@ def norm_trace(effects, names):
             out[w] += "1"
         elif meth == "write_bit":
             out[w] += "1" if args[0] else "0"
+        elif meth == "write_zeros":
+            out[w] += "0" * args[0]
         else:
             raise Unsupported("writer method %s" % meth)
     return out
@@ -118,7 +120,7 @@ class ChunkEngine:
 
     def __init__(self, P, classify, process, state_path, width, kind):
         self.P, self.classify, self.process, self.state_path, self.W, self.kind = P, classify, process, state_path, width, kind
-        self.I = Interp(P, effect_fns=["BitWriter::write_0", "BitWriter::write_1", "BitWriter::write_bit"])
+        self.I = Interp(P, effect_fns=["BitWriter::write_0", "BitWriter::write_1", "BitWriter::write_bit", "BitWriter::write_zeros", "BitWriter::write_bits"])
 
     def state(self, name):
         return Adt(self.state_path, STATES[self.kind].index(name) if self.kind == "simple" else STATES["standard"].index(name), name, [])
